@@ -116,6 +116,19 @@ pub fn interner(r: &mut Rng, n: u64, thorough: bool, out: &mut Out) {
             }
         }
     }
+    if thorough && !gen::small() && cfg!(feature = "full") && !cfg!(feature = "docs") {
+        // (default build only: it costs minutes) one history past 2^16 elements (thorough tier only: the list model is quadratic): fill, then look up and re-intern the
+        // values around every power-of-two index
+        let k = 65_600u32;
+        let mut ops: Vec<IOp> = (0..k).map(IOp::Intern).collect();
+        for v in [0u32, 1, 255, 256, 257, 32767, 32768, 65534, 65535, 65536, 65537, k - 1, k] {
+            ops.push(IOp::Get(v));
+            ops.push(IOp::Intern(v));
+            ops.push(IOp::Resolve(v));
+        }
+        out.line(&format!("interner g{} {}", case, run_interner(&ops)));
+        case += 1;
+    }
     for _ in 0..n {
         let alphabet = if gen::small() { 3 } else if r.chance(1, 12) { *r.pick(&[33u64, 65, 130, 260]) } else { *r.pick(&[2u64, 4, 8, 30]) };
         let len = r.below(if gen::small() { 7 } else if alphabet > 30 { 3 * alphabet } else if thorough { 200 } else { 60 }) as usize;
